@@ -462,10 +462,12 @@ class MustFlow:
             a = args[i]
             if a['k'] in ('copy', 'move'):
                 pl = a['pl']
-                at = self.must_atoms_place(pl, e['b'], seen)
+                ci0 = fd._closure_info(pl['l']) if not pl.get('p') else None
+                # a closure value is described by what it captures by value / shared reference, not by the buffers it writes
+                at = self.must_atoms_place(pl, e['b'], seen) if ci0 is None else set()
                 # closures: captured operands
                 if not pl.get('p'):
-                    ci = fd._closure_info(pl['l'])
+                    ci = ci0
                     if ci is not None:
                         name, caps = ci
                         for c in caps:
